@@ -275,6 +275,11 @@ class Ownership:
                 if k.arg == "out":
                     for root in self.roots(k.value, amap, selfname, attr_alias, ci, mi, depth):
                         sinks.append((root, call.lineno, ast.unparse(call)))
+                elif k.arg in OVERWRITE_KW and isinstance(k.value, ast.Constant) and k.value.value is True \
+                        and len(call.args) > OVERWRITE_KW[k.arg]:
+                    # scipy / numpy "you may destroy my input" flags: honoured whenever the argument's memory layout allows it
+                    for root in self.roots(call.args[OVERWRITE_KW[k.arg]], amap, selfname, attr_alias, ci, mi, depth):
+                        sinks.append((root, call.lineno, ast.unparse(call)))
             # callee that mutates a parameter in place
             callees = []
             if isinstance(f, ast.Attribute) and selfname and isinstance(f.value, ast.Name) \
@@ -429,6 +434,9 @@ def param_mutations(own: Ownership, ci, fn, mi=None):
 LIST_MUTATORS = {"append", "extend", "insert", "pop", "remove", "clear", "reverse", "sort", "update", "setdefault", "popitem",
                  "resize", "fill", "put", "itemset", "partition", "byteswap", "setfield", "add", "discard"}
 ARG_MUTATOR_FUNCS = {"shuffle", "put", "place", "copyto", "fill_diagonal", "putmask", "put_along_axis"}
+# keyword -> position of the argument the callee is allowed to overwrite (scipy.linalg solve / solve_triangular / cho_solve / cholesky /
+# inv / lu_factor, numpy median / percentile / quantile)
+OVERWRITE_KW = {"overwrite_a": 0, "overwrite_b": 1, "overwrite_x": 0, "overwrite_ab": 0, "overwrite_input": 0}
 
 
 def _state_path(e, alias):
@@ -458,6 +466,10 @@ def _state_path(e, alias):
         nm = f.attr if isinstance(f, ast.Attribute) else f.id if isinstance(f, ast.Name) else None
         if isinstance(f, ast.Attribute) and nm in VIEW_METHODS:
             return _state_path(f.value, alias)
+        ms = alias.get("@methods")
+        if ms and isinstance(f, ast.Attribute) and isinstance(f.value, ast.Name) and alias.get(f.value.id) == {"self"} \
+                and nm in ms[0] and ms[1] < 3:
+            return _method_return_paths(ms[0][nm], ms[0], ms[1] + 1)
         if nm in VIEW_FUNCS | {"asfortranarray", "asarray_chkfinite", "atleast_3d", "require"} and e.args \
                 and not (isinstance(f, ast.Attribute) and not isinstance(f.value, ast.Name)):
             return _state_path(e.args[0], alias)
@@ -466,11 +478,15 @@ def _state_path(e, alias):
     return set()
 
 
-def state_sinks(fn, roots, own_roots=("self",)):
-    """In-place updates, inside `fn`, of objects stored in (or reached from) the objects named in `roots` (name -> label), directly
-    or through local aliases: [(path, lineno, text)].  Paths are like `self.sample`, `priors[].variables`.
-    Flow-insensitive over aliases (a name that ever aliased a stored object counts), which is the safe direction."""
+def _elem(paths):
+    return {b if b.endswith("[]") else b + "[]" for b in paths}
+
+
+def _state_aliases(fn, roots, methods=None, _depth=0):
+    """name -> set of access paths of stored objects the local name may be bound to (flow-insensitive fix-point)."""
     alias = {n: {lab} for n, lab in roots.items()}
+    if methods:
+        alias["@methods"] = (methods, _depth)
     changed = True
     while changed:
         changed = False
@@ -503,12 +519,45 @@ def state_sinks(fn, roots, own_roots=("self",)):
                         src = srcs[k] if len(srcs) == len(tgs) else srcs[0]
                         if isinstance(x, ast.Name):
                             pairs.append((x.id, {b if b.endswith("[]") else b + "[]" for b in _state_path(src, alias)}))
+            if isinstance(st, ast.Assign) and not isinstance(st.value, (ast.Tuple, ast.List)):
+                # unpacking a stored tuple / list / the rows of a stored array: every target names an element of it
+                for t in st.targets:
+                    if isinstance(t, (ast.Tuple, ast.List)):
+                        src = _elem(_state_path(st.value, alias))
+                        for a in t.elts:
+                            a = a.value if isinstance(a, ast.Starred) else a
+                            if isinstance(a, ast.Name) and src:
+                                pairs.append((a.id, src))
             for name, paths in pairs:
                 if name in roots:
                     continue
                 if paths - alias.get(name, set()):
                     alias.setdefault(name, set()).update(paths)
                     changed = True
+    return alias
+
+
+def _method_return_paths(fn, methods, depth):
+    """Access paths (rooted at the receiver) of the stored objects a method may hand out as its result."""
+    if not fn.args.args:
+        return set()
+    me = fn.args.args[0].arg
+    alias = _state_aliases(fn, {me: "self"}, methods, depth)
+    out = set()
+    for n in ast.walk(fn):
+        if isinstance(n, ast.Return) and n.value is not None:
+            vals = n.value.elts if isinstance(n.value, ast.Tuple) else [n.value]
+            for v in vals:
+                out |= _state_path(v, alias)
+    return out
+
+
+def state_sinks(fn, roots, own_roots=("self",), methods=None):
+    """In-place updates, inside `fn`, of objects stored in (or reached from) the objects named in `roots` (name -> label), directly
+    or through local aliases: [(path, lineno, text)].  Paths are like `self.sample`, `priors[].variables`.
+    Flow-insensitive over aliases (a name that ever aliased a stored object counts), which is the safe direction.
+    `methods` (name -> FunctionDef of the receiver's class) lets `self.m(..)` stand for the stored objects m returns."""
+    alias = _state_aliases(fn, roots, methods)
     out = []
 
     def hit(e, st, why):
@@ -547,6 +596,18 @@ def state_sinks(fn, roots, own_roots=("self",)):
             for k in call.keywords:
                 if k.arg == "out":
                     hit(k.value, owner, "out= argument")
+    # "you may destroy my input" flags and out= of calls nested anywhere in a statement
+    for st in ast.walk(fn):
+        if not isinstance(st, ast.stmt) or isinstance(st, (ast.FunctionDef, ast.ClassDef, ast.For, ast.While, ast.If, ast.With, ast.Try)):
+            continue
+        for call in ast.walk(st):
+            if not isinstance(call, ast.Call):
+                continue
+            for k in call.keywords:
+                if k.arg in OVERWRITE_KW and isinstance(k.value, ast.Constant) and k.value.value is True and len(call.args) > OVERWRITE_KW[k.arg]:
+                    hit(call.args[OVERWRITE_KW[k.arg]], st, "overwrite flag")
+                elif k.arg == "out" and not isinstance(st, ast.Expr):
+                    hit(k.value, st, "out= argument")
     # only updates reached through a local alias or an element are reported here: a direct `self.x[...] = v` / `self.x.sort()` is
     # the class managing its own attribute, which the caller of this helper may or may not want - so report those separately
     return sorted(set(out))
